@@ -1124,6 +1124,16 @@ func (data *Data) UserPrivilege(name, database string) (*influxql.Privilege, err
 func (data *Data) Clone() *Data {
 	other := *data
 
+	// Node lists are edited in place (UpdateDataNode, SetMetaNode) and
+	// re-sorted after inserts, so the copy needs its own backing arrays.
+	if data.MetaNodes != nil {
+		other.MetaNodes = make([]NodeInfo, len(data.MetaNodes))
+		copy(other.MetaNodes, data.MetaNodes)
+	}
+	if data.DataNodes != nil {
+		other.DataNodes = make([]NodeInfo, len(data.DataNodes))
+		copy(other.DataNodes, data.DataNodes)
+	}
 	other.Databases = data.CloneDatabases()
 	other.Users = data.CloneUsers()
 
